@@ -33,7 +33,7 @@ Sizes == IF Q THEN <<1000, 2000, 3000>> ELSE <<1000, 2000, 3000, 4500, 6000>>
 LSizes == IF Q THEN <<128, 200, 520, 1000, 2000, 3000>> ELSE <<128, 200, 520, 1000, 2000, 3000, 5200, 6000>>
 \* shapes per size in the large families
 T == IF Q THEN 4 ELSE 8
-LT == IF Q THEN 2 ELSE 5
+LT == IF Q THEN 2 ELSE 6
 
 Sh(alg, r, c, k, prof, z, d) ==
   [alg |-> alg, nrows |-> r, ncols |-> c, corank |-> k, profile |-> prof, nzero |-> z, ndup |-> d]
@@ -53,17 +53,18 @@ Coranks == <<0, 3, 30, 100>>
 Profiles == <<"sieve", "uniform">>
 BigExtras == <<<<0, 0>>, <<2, 2>>>>
 
-\* The large families are a design rather than a product: for the i-th size, T shapes t = 1..T whose
-\* other coordinates cycle with different periods, so that every value of every coordinate occurs
-\* with every size and the pairs are spread out.
+\* The large families are a design rather than a product: for the i-th size, T shapes t = 1..T; the
+\* planted corank cycles through its values, the other coordinates are picked by a fixed hash.
+Lcg(x) == (x * 25173 + 13849) % 65536
+Hash(a, b, c) == Lcg((Lcg((Lcg(a % 65536) + b) % 65536) + c) % 65536) \div 256
 \* wide: ten more columns than rows (as in the sieve: a few more relations than primes);
 \* tall: 10% more rows than columns (the kernel is what was planted)
 LargeShape(i, t) ==
   LET n == Sizes[i]
-      wide == (i + t) % 2 = 0
-      x == (((i + t) \div 2) % 2) + 1
-  IN Sh("gauss", IF wide THEN n - 10 ELSE n + n \div 10, n, Coranks[((i + 2 * t) % 4) + 1],
-        Profiles[(t % 2) + 1], BigExtras[x][1], BigExtras[x][2])
+      wide == Hash(i, t, 1) % 2 = 0
+      x == (Hash(i, t, 3) % 2) + 1
+  IN Sh("gauss", IF wide THEN n - 10 ELSE n + n \div 10, n, Coranks[((i + t) % 4) + 1],
+        Profiles[(Hash(i, t, 2) % 2) + 1], BigExtras[x][1], BigExtras[x][2])
 Large == {LargeShape(i, t) : i \in 1..Len(Sizes), t \in 1..T}
 
 LCoranks == <<0, 10, 70, 100>>
@@ -72,9 +73,9 @@ LProfiles == <<"sieve", "uniform", "dense">>
 LCols(n, a) == CASE a = 1 -> n + 10 [] a = 2 -> n + 100 [] a = 3 -> n - 8
 LanczosShape(i, t) ==
   LET n == LSizes[i]
-      p == ((i + 2 * t) % 3) + 1
-      x == (t % 2) + 1
-  IN Sh("lanczos", n, LCols(n, ((i + t) % 3) + 1), LCoranks[((2 * i + t) % 4) + 1],
+      p == (Hash(i, t, 5) % 3) + 1
+      x == (Hash(i, t, 6) % 2) + 1
+  IN Sh("lanczos", n, LCols(n, (Hash(i, t, 4) % 3) + 1), LCoranks[((i + t) % 4) + 1],
         LProfiles[IF p = 3 /\ n > 520 THEN 1 ELSE p],      \* dense only where the trace stays small
         BigExtras[x][1], BigExtras[x][2])
 Lanczos == {LanczosShape(i, t) : i \in 1..Len(LSizes), t \in 1..LT}
